@@ -240,7 +240,7 @@ func (c04) Gen(r *sim.RNG, tier string, idx int) *Scenario {
 			stripRelDirIDsIfCyclic(sc.World)
 		}
 		if r.Bool(0.4) {
-			sc.Faults = DrawFaults(sc.World, r, 1+r.Intn(2), []string{sim.FRefuse, sim.FTorn, sim.FFlip, sim.FIllTyped}, nil, true)
+			sc.Faults = DrawFaults(sc.World, r, 1+r.Intn(2), []string{sim.FRefuse, sim.FTorn, sim.FFlip, sim.FIllTyped, sim.FTrail}, nil, true)
 		}
 	}
 	sc.Opts = Opts{Skip: r.Bool(0.3), Continue: r.Bool(0.5), Absolute: r.Bool(0.3)}
@@ -283,7 +283,8 @@ func (c04) Gen(r *sim.RNG, tier string, idx int) *Scenario {
 
 // hasRelDirID reports whether a schema of the world carries a relative directory id ("x/").
 func relDirID(id string) bool {
-	return strings.HasSuffix(id, "/") && !strings.Contains(id, "://") && !strings.HasPrefix(id, "/") && !strings.HasPrefix(id, "..")
+	// a relative id with a directory component: "sub/", "deeper/dir/", "sub/a.json"
+	return strings.Contains(id, "/") && !strings.Contains(id, "://") && !strings.HasPrefix(id, "/") && !strings.HasPrefix(id, "..") && !strings.HasPrefix(id, "#")
 }
 
 func walkIDs(v interface{}, f func(m map[string]interface{}, id string)) {
